@@ -1,4 +1,5 @@
 """C10  Job scripts run the spec faithfully with the resolved resource options."""
+import json
 import logging
 import re
 
@@ -396,6 +397,62 @@ def q10d(mode: int, err: bool, twd: int) -> str:
     return q.run(_q10d, (mode, err, twd))
 
 
+# ---------------------------------------------------------------- Q10h the log mode chosen with `gwf config set` shapes the submitted script
+def _q10h(mode, via, err):
+    """Slurm.  The log mode is chosen the way a user does it (`gwf config set backend.slurm.log_mode <mode>`, via=0) or is
+    already in .gwfconf.json (via=1) or is not configured (via=2, mode full); then `gwf run`; the script sbatch received
+    carries the directives of that mode, and `gwf logs` shows what the job writes there."""
+    if not (q.in_range(mode, 3) and q.in_range(via, 3)):
+        return q.SKIP
+    log_mode = q.pick(["full", "merged", "none"], mode)
+    if via == 2 and mode != 0:
+        return q.SKIP
+    via = q.pick([0, 1, 2], via)
+    err = True if err else False
+    with q.notrace():
+        w = World("slurm")
+        w.target("T.one", [], ["t.out"])
+        if via == 1:
+            w.vfs.add(ROOT + "/.gwfconf.json", 1, json.dumps({"backend.slurm.log_mode": log_mode}))
+        w.install()
+    try:
+        if via == 0:
+            w.config_set("backend.slurm.log_mode", log_mode)
+        w.run()
+        jobs = w.sim.submitted()
+        if len(jobs) != 1:
+            return "run submitted %d jobs" % len(jobs)
+        ds = shell.directives("slurm", jobs[0].script)
+        outs = [d[len("--output="):] for d in ds if d.startswith("--output=")]
+        errs = [d[len("--error="):] for d in ds if d.startswith("--error=")]
+        how = ["config set", "configuration file", "default"][via]
+        if log_mode == "none":
+            if outs != ["/dev/null"] or errs:
+                return "log mode none (%s): the submitted script sends output to %r / %r" % (how, outs, errs)
+            return ""
+        if len(outs) != 1 or (log_mode == "merged" and errs) or (log_mode == "full" and len(errs) != 1):
+            return "log mode %s (%s): stdout/stderr directives %r / %r" % (log_mode, how, outs, errs)
+        w.vfs.add(outs[0], 50, "OUT-OF-LATEST-RUN")
+        if errs:
+            w.vfs.add(errs[0], 50, "ERR-OF-LATEST-RUN")
+        if err and not errs:
+            return ""
+        shown = w.logs("T.one", stderr=err)
+        want = "ERR-OF-LATEST-RUN" if err else "OUT-OF-LATEST-RUN"
+        if shown != [want]:
+            return "log mode %s (%s): gwf logs shows %r, the job wrote %r" % (log_mode, how, shown, want)
+        return ""
+    finally:
+        w.uninstall()
+
+
+def q10h(mode: int, via: int, err: bool) -> str:
+    """
+    post: _ == ""
+    """
+    return q.run(_q10h, (mode, via, err))
+
+
 # ---------------------------------------------------------------- Q10e clean_logs
 LOGNAMES = ["A", "A.x", "old", "old.x", "B", "A_x"]
 TARGETSETS = [["A", "B"], ["A.x", "B"], ["old.x"], ["A", "A.x", "A_x", "B"]]
@@ -467,6 +524,8 @@ QUERIES = [
      "bound": "directory name of 1..2 (quick) / 1..3 (thorough) characters over the alphabet %r (those accepted by target validation)" % (ALPHA,)},
     {"name": "Q10d", "fn": q10d, "shards": [{"be": b} for b in BES], "timeout": 300,
      "bound": "log modes full/merged/none (Slurm), full (SGE, LSF); stdout and stderr; target name with dot and underscore; target working directory = project directory, a sub-directory with a blank, or a directory outside the project"},
+    {"name": "Q10h", "fn": q10h, "shards": [{}], "timeout": 300,
+     "bound": "Slurm log mode full/merged/none chosen with the real `gwf config set`, present in the configuration file, or left at its default; `gwf run` of one target; directives of the script sbatch received; `gwf logs`"},
     {"name": "Q10e", "fn": q10e, "shards": {"quick": [{"tset": k, "nlogs": 5} for k in range(len(TARGETSETS))], "thorough": [{"tset": k, "nlogs": 6} for k in range(len(TARGETSETS))]},
      "timeout": {"quick": 600, "thorough": 1800},
      "bound": "any subset of 5 (quick) / 6 (thorough) log base names (each with .stdout and .stderr) incl. dotted names that are prefixes of each other, 4 target sets, setting on/off, dry-run on/off"},
